@@ -42,11 +42,18 @@ pub struct CfbOpts {
     /// NUL. Names of 31 units leave no room (terminator only). The container layout is not affected by this
     /// knob (the garbage is drawn from a side generator).
     pub name_garbage: bool,
+    /// where the sector numbers start when `shuffle` is off (and a transformation of the permutation when it is
+    /// on): 0 = FAT, DIFAT, chains in this order from sector 0 (tables at the start of the file); 1 = the same
+    /// order from the LAST sector downwards (tables at the end, every chain descending); 2 = rotated by half the
+    /// file (tables in the middle). `random()` leaves it at 0.
+    pub placement: u8,
+    /// allocate the directory chain right after the FAT/DIFAT sectors instead of last. `random()` leaves it off.
+    pub dir_first: bool,
 }
 
 impl Default for CfbOpts {
     fn default() -> CfbOpts {
-        CfbOpts { sector_size: 512, shuffle: false, mini_shuffle: false, extra_free: 0, unused_dirs: 0, dir_shuffle: false, min_fat_sectors: 0, fill: 0, name_garbage: false }
+        CfbOpts { sector_size: 512, shuffle: false, mini_shuffle: false, extra_free: 0, unused_dirs: 0, dir_shuffle: false, min_fat_sectors: 0, fill: 0, name_garbage: false, placement: 0, dir_first: false }
     }
 }
 
@@ -57,6 +64,8 @@ impl CfbOpts {
         let name_garbage = Rng(rng.0 ^ 0x6E61_6D65_5F67_6172).chance(1, 3);
         let v4 = rng.chance(1, 3);
         CfbOpts {
+            placement: 0,
+            dir_first: false,
             name_garbage,
             sector_size: if v4 { 4096 } else { 512 },
             shuffle: rng.chance(3, 4),
@@ -177,6 +186,12 @@ pub fn write_cfb(streams: &[(String, Vec<u8>)], opts: &CfbOpts, rng: &mut Rng) -
 
     // --- regular chains: (tag, data); tags: -1 mini FAT, -2 mini stream, -3 directory, s >= 0 stream s
     let mut chains: Vec<(i64, Vec<u8>)> = vec![];
+    let ndir_entries = 1 + streams.len() + opts.unused_dirs;
+    let per_dir = ss / 128;
+    let ndir_sect = ndir_entries.div_ceil(per_dir);
+    if opts.dir_first {
+        chains.push((-3, vec![0u8; ndir_sect * ss]));
+    }
     if nm > 0 {
         let mut mf: Vec<u8> = minifat.iter().flat_map(|x| x.to_le_bytes()).collect();
         pad_to(&mut mf, ss, 0xFF);
@@ -188,10 +203,9 @@ pub fn write_cfb(streams: &[(String, Vec<u8>)], opts: &CfbOpts, rng: &mut Rng) -
             chains.push((s as i64, d.clone()));
         }
     }
-    let ndir_entries = 1 + streams.len() + opts.unused_dirs;
-    let per_dir = ss / 128;
-    let ndir_sect = ndir_entries.div_ceil(per_dir);
-    chains.push((-3, vec![0u8; ndir_sect * ss]));
+    if !opts.dir_first {
+        chains.push((-3, vec![0u8; ndir_sect * ss]));
+    }
     let nsect: Vec<usize> = chains.iter().map(|(_, d)| d.len().div_ceil(ss)).collect();
     let data_sectors: usize = nsect.iter().sum::<usize>() + opts.extra_free;
 
@@ -211,6 +225,11 @@ pub fn write_cfb(streams: &[(String, Vec<u8>)], opts: &CfbOpts, rng: &mut Rng) -
     let mut ids: Vec<usize> = (0..total).collect();
     if opts.shuffle {
         rng.shuffle(&mut ids);
+    }
+    match opts.placement {
+        1 => ids.reverse(),
+        2 => ids.rotate_left(total / 2),
+        _ => {}
     }
     let mut it = ids.into_iter();
     let mut fat = vec![FREESECT; nfat * per_fat];
